@@ -18,7 +18,7 @@ import rd_common as R
 PID = "C03"
 CLUSTER = "Reader"
 PROPS = "props/C03.v"
-N_QUICK = 1500
+N_QUICK = 1800
 N_THOROUGH = 24000
 RULE = ("one input under the three stringencies for each of five entry points: header line sequences (pragma grammar "
         "of C13), single records (explicit names and/or scheme: untyped, NoRestrictions, gdc-1.0.0 with valid lines "
@@ -148,6 +148,12 @@ def generate(rng, n):
     out = []
     for c in R.reader_boundary_cases():
         out.append({"kind": "reader", "stream": "boundary", "lines": c["lines"], "override": None})
+    for k, c in enumerate(R.typed_special_cases()):
+        if c["shape"]["defect"] == "format-text" or k % 7 == 0:
+            out.append({"kind": "reader", "stream": "typed-special", "lines": c["lines"], "override": None})
+            if c["shape"]["defect"] == "format-text":
+                out.append({"kind": "line", "stream": "typed-special",
+                            "spec": {"line": c["lines"][-1], "names": None, "scheme": GDC, "ln": 4}})
     while len(out) < n:
         kind = rng.choice(["header", "line", "line", "validate", "reader", "reader", "reader", "writer"])
         stream = rng.choice(["valid", "defect", "defect", "adversarial"])
